@@ -44,7 +44,20 @@ func (p *contentProvider) scoreChunk(ms []*candidateMatch, language string, opts
 
 	var bestScore lineScore
 	bestLine := 0
+
+	// When non-nil, symbolInfo has one slot per candidate of the chunk (it
+	// becomes ChunkMatch.SymbolInfo, which is specified to have the same length
+	// as Ranges): the per-line results are copied to the line's position.
 	var symbolInfo []*zoekt.Symbol
+	addSymbolInfo := func(lineStart int, si []*zoekt.Symbol) {
+		if si == nil {
+			return
+		}
+		if symbolInfo == nil {
+			symbolInfo = make([]*zoekt.Symbol, len(ms))
+		}
+		copy(symbolInfo[lineStart:], si)
+	}
 
 	start := 0
 	currentLine := -1
@@ -57,7 +70,7 @@ func (p *contentProvider) scoreChunk(ms []*candidateMatch, language string, opts
 		// If this match represents a new line, then score the previous line and update 'start'.
 		if i != 0 && lineNumber != currentLine {
 			score, si := p.scoreLine(ms[start:i], language, currentLine, opts)
-			symbolInfo = append(symbolInfo, si...)
+			addSymbolInfo(start, si)
 			if score.score > bestScore.score {
 				bestScore = score
 				bestLine = currentLine
@@ -69,7 +82,7 @@ func (p *contentProvider) scoreChunk(ms []*candidateMatch, language string, opts
 
 	// Make sure to score the last line
 	line, si := p.scoreLine(ms[start:], language, currentLine, opts)
-	symbolInfo = append(symbolInfo, si...)
+	addSymbolInfo(start, si)
 	if line.score > bestScore.score {
 		bestScore = line
 		bestLine = currentLine
@@ -226,13 +239,17 @@ func (p *contentProvider) scoreLineBM25(ms []*candidateMatch, lineNumber int) (f
 
 	// Check if any index comes from a symbol match tree, and if so hydrate in symbol information
 	var symbolInfo []*zoekt.Symbol
-	for _, m := range ms {
+	for i, m := range ms {
 		if m.symbol {
 			if sec, si, ok := p.findSymbol(m); ok && si != nil {
 				// findSymbols does not hydrate in Sym. So we need to store it.
 				sym := sectionSlice(p.data(false), sec)
 				si.Sym = string(sym)
-				symbolInfo = append(symbolInfo, si)
+				// One slot per candidate, like scoreLine.
+				if symbolInfo == nil {
+					symbolInfo = make([]*zoekt.Symbol, len(ms))
+				}
+				symbolInfo[i] = si
 			}
 		}
 	}
